@@ -256,6 +256,7 @@ class NetGuard:
         self.attempts: t.List[str] = []
         self.allow_loopback = False
         self._installed = False
+        self.exempt_threads: t.Set[int] = set()  # threads of the reference DC (server side), never the client's
 
     def install(self) -> None:
         if self._installed:
@@ -266,6 +267,11 @@ class NetGuard:
     def _hook(self, event, args):
         if not self.armed or event not in self.EVENTS:
             return
+        if self.exempt_threads:
+            import threading
+
+            if threading.get_ident() in self.exempt_threads:
+                return
         if self.allow_loopback:
             s = repr(args)
             if "127.0.0.1" in s or "localhost" in s:
